@@ -82,8 +82,14 @@ fn set_of<'a>(it: impl Iterator<Item = &'a str>) -> BTreeSet<String> {
 /// Static comparison of the enum and lexical format instances of the same name.
 pub fn vocab_mismatches(f: &F) -> Vec<String> {
     let mut bad = vec![];
+    // single-valued entries must be equal; for the dictionaries (several spellings per category) every
+    // keyword of the enum format must be known to the lexical format - a further spelling that only the
+    // lexical dictionary lists (a legacy alias it still reads) is not a different vocabulary "for every
+    // constructor": the enum side neither prints nor accepts it, so no well-formed string contains it
     let mut cmp = |what: &str, a: BTreeSet<String>, b: BTreeSet<String>| {
-        if a != b {
+        let dictionary = matches!(what, "atom prefixes" | "connecters" | "copulas" | "punctuations" | "set brackets" | "stamp forms");
+        let ok = if dictionary { a.is_subset(&b) } else { a == b };
+        if !ok {
             bad.push(format!("{what}: enum format has {a:?}, lexical format has {b:?}"));
         }
     };
